@@ -1,12 +1,40 @@
 """C17 — pre_randomize / post_randomize run once each, before and after the solve."""
+import solvegen
 from props import tree_common
+
+
+def snapshots(sc, oi, res):
+    """what the callbacks saw: pre_randomize runs before the solve (it sees the values from before the call plus what the
+    callbacks that ran earlier assigned), post_randomize after every field holds its final value"""
+    out = []
+    lits = solvegen.Lits(sc, sc["root_cls"], solvegen.track_state(sc, oi))
+    _, expect = solvegen.apply_pre_hooks(sc, lits, res["before"], res["hooks"])
+    for (oid, which, snap), ex in zip(res["hooks"], expect):
+        if ex is None:
+            continue
+        _, idxs, want = ex
+        if which == "post_randomize":
+            if res["outcome"] != "ok":
+                out.append("post_randomize ran on object %d although the call ended with %s" % (oid, res["outcome"]))
+                continue
+            want = [res["values"][i] for i in idxs]
+        if list(snap) != list(want):
+            out.append("%s of object %d saw %s, expected %s (%s)" % (
+                which, oid, snap, want, "the values before the solve" if which == "pre_randomize" else "the final values"))
+    return out
 
 
 def run(ctx):
     tree_common.run_tree(
-        ctx, "C17", "Prop_C17.v", bits=32,
+        ctx, "C17", "Prop_C17.v", bits=2 | 4 | 32,
         what="pre_randomize / post_randomize did not run exactly once on the top object and every random sub-object (and on "
-             "nothing else)",
-        rule_extra="Every class defines both callbacks; each invocation is logged with the object's identity and the field values "
-                   "it sees.",
-        assumptions=["object trees (no object reachable by two attribute paths)"])
+             "nothing else), or the values pre_randomize assigned are not the ones the solver saw (returned values violate the "
+             "constraints over them / a non-random field lost the assigned value)",
+        rule_extra="Every instantiated class defines both callbacks (30% of the classes inherit their fields from a decorated base "
+                   "that defines none); pre_randomize assigns 60% of the object's non-random and 15% of its random scalar "
+                   "fields; each invocation is logged with the object's identity and the field values it sees: pre_randomize must "
+                   "see the values from before the solve, post_randomize the final values; the constants handed to the solver "
+                   "and the frame are judged against the values after the assignments.",
+        assumptions=["object trees (no object reachable by two attribute paths); lists of objects are not generated; callbacks "
+                     "around a random-size list: see C04's pre_randomize stream"],
+        hooks=True, extra=snapshots)
